@@ -51,6 +51,10 @@ CLAIMED['C11'] = ('exploration', 'deterministic simulation: seeded permission ma
     'Seeded search: generated characteristics and descriptors each carry a unique canary and a permission mask drawn from all 256 combinations; the link goes plain -> Just-Works (encrypted) -> passkey (authenticated) -> reconnect by real SMP pairing; in every phase every read path (read, read blob, read by type, read by group type, read multiple, read multiple variable, find by type value with the exact value) and write path (write request, write command) is aimed at every attribute on the fixed or an enhanced bearer. Oracle from the property text: no server PDU carries the canary of an attribute that is not readable in that phase, no refused write changes the server-side value, a refused single-handle access is answered with an error matching a requirement that really failed. Sampling, not proof.',
     'Trusted: ground truth of authenticated = association model configured by the harness; authorisation requirements are never satisfiable; under-granting is not judged. Two genuine defects are open known findings (READABLE/WRITEABLE never enforced; LE encryption implies authenticated), 18 signatures.', 'DESIGN.md §5 C11')
 
+CLAIMED['C12'] = ('exploration', 'deterministic simulation: seeded databases, MTU pairs, clients/bearers and subscription sets between real client and server; scripted adversarial server for termination',
+    'Seeded search over generated databases (mixed UUID widths, value lengths around k*(MTU-1) and MTU-3, static and callback values), client/server MTU 23..517, one or two clients plus an optional enhanced bearer. Oracle: every discovery API reconstructs the independently computed layout (handles, group ends, 128-bit UUID value, properties; default services taken from the server object), reads equal the current server value incl. long reads, writes are visible on the server, a push through each of the four server APIs reaches exactly the bearers subscribed for that kind, as 0x1B or 0x1D on the wire, truncated to MTU-3, and an indicating call returns only after the confirmations are on the wire. Termination: every discovery API against a scripted server (empty lists, repeated/decreasing handles, 0xFFFF, wrong response type, unexpected errors, short entries, non-advancing handles) returns or raises; the 4th identical (request, answer) pair is a non-terminating loop. Sampling, not proof.',
+    'Trusted: expected layout builder (bsim/gattdb.py); the scripted server is only as adversarial as its 10 answer kinds; discoveries still advancing after 3000 requests are inconclusive.', 'DESIGN.md §5 C12')
+
 NOT_YET = {}
 
 
